@@ -34,6 +34,7 @@ type crashArg struct {
 	Reclaim    bool       `json:"reclaim,omitempty"` // C05: touch/reuse procedure + reclaim audit after recovery
 	FsckOnly   bool       `json:"fsck_only,omitempty"`
 	MaxImages  int        `json:"max_images,omitempty"`
+	Fresh      bool       `json:"fresh,omitempty"`      // the history starts on a blank disk: MakeNfs formats it inside the recorded trace (nothing installed yet); cuts before the first request are out of scope
 	Sched      int        `json:"sched,omitempty"`      // also explore every schedule of the history run with <= Sched deviations (daemons run early), points at disk writes
 	CheckVerf  bool       `json:"check_verf,omitempty"` // C07: verifier constant within an instance, different after recovery
 	ReadBack   bool       `json:"read_back,omitempty"`  // C07: data of every write is readable immediately
@@ -77,7 +78,14 @@ func crashJob(raw json.RawMessage) (interface{}, error) {
 	var img0 *vdisk.Image
 	var vars0 *fsx.Vars
 	var model0 *reffs.FS
+	if a.Fresh {
+		base = vdisk.NewImage(a.DiskSize)
+	}
 	res := vrt.Run(vrt.Config{}, func() {
+		if a.Fresh {
+			img0, vars0, model0 = base, fsx.NewVars(), reffs.New()
+			return
+		}
 		w := NewWorld(base)
 		w.Disk.Record = false
 		w.Probe = probe
@@ -201,7 +209,33 @@ func crashJob(raw json.RawMessage) (interface{}, error) {
 		out.Raw += cr.Stats.RawChoices
 		out.CappedEpochs += cr.Stats.CappedEpochs
 		ack, inv := ackBounds(d.Log)
+		minCut := 0
+		if a.Fresh {
+			// formatting itself being cut by a crash is outside the property: only cuts after the first request was issued
+			for i, e := range d.Log {
+				if e.Kind == vdisk.EvMark && e.Mark == "inv" {
+					minCut = i + 1
+					break
+				}
+			}
+		}
 		for ii, im := range cr.Images {
+			if minCut > 0 {
+				var rs []crash.Range
+				for _, rg := range im.Ranges {
+					if rg.PMax < minCut {
+						continue
+					}
+					if rg.PMin < minCut {
+						rg.PMin = minCut
+					}
+					rs = append(rs, rg)
+				}
+				if len(rs) == 0 {
+					continue
+				}
+				im.Ranges = rs
+			}
 			if len(seenTrace) > 1 && seenImage[im.Key] {
 				continue // recovered and judged under an earlier schedule of the same history (sequential client: same bounds per operation)
 			}
